@@ -1172,6 +1172,35 @@ def run_c18(ctx):
                     break
         else:
             bad("cfg printer wrote no full_cfg.dot")
+        # transaction-context printer: block annotations show the computed contexts (and block id / cost)
+        def short_list(vals):
+            vals = sorted(vals)
+            seqs = []
+            for v in vals:
+                if seqs and seqs[-1][-1] == v - 1:
+                    seqs[-1].append(v)
+                else:
+                    seqs.append([v])
+            return " ".join(f"{q[0]}..{q[-1]}" if len(q) >= 4 else " ".join(map(str, q)) for q in seqs)
+        tcd = [v for k, v in r.get("printer_files", {}).items() if k.endswith("print-transaction-context/transaction-context.dot")]
+        if tcd:
+            d = cli.parse_dot(tcd[0])
+            nfacts += 1
+            for b in mm["blocks"]:
+                c = mm["ctx"].get(str(b["idx"]))
+                node = d["nodes"].get(b["idx"])
+                if c is None or node is None:
+                    continue   # block outside the function (subroutine only called from dead code): no annotation
+                gi = [int(x) for x in c.get("self:GroupIndex", "").split(",") if x != ""]
+                gs = [int(x) for x in c.get("self:GroupSize", "").split(",") if x != ""]
+                exp_c = [f"block_id = {b['idx']}; cost = {mm['costs'].get(str(b['idx']))}", f"GroupIndex: {short_list(gi)}", f"GroupSize: {short_list(gs)}"]
+                # the node also shows "Subroutine <name>" (entry blocks) and the source comments of its instructions
+                got_c = [x.strip() for x in node["comments"] if x.strip().startswith(("block_id = ", "GroupIndex:", "GroupSize:"))][:3]
+                if got_c != [x.strip() for x in exp_c]:
+                    bad(f"transaction-context DOT node {b['idx']} is annotated {node['comments']}, computed contexts give {exp_c}")
+                    break
+        else:
+            bad("transaction-context printer wrote no transaction-context.dot")
         # subroutine-cfg: one file per subroutine, one call box per call site
         for s in mm["subs"]:
             fs = [v for k, v in r.get("printer_files", {}).items() if k.endswith(f"print-subroutine-cfg/subroutine_{s['name']}_cfg.dot")]
